@@ -36,6 +36,7 @@ type Lemma struct {
 	Induction string    // name of int parameter to induct on (>= base)
 	Base      *SExpr    // base value expression (default 0)
 	Uses      []*SExpr  // lemma applications available in the proof
+	Haves     []*Clause // intermediate assertions: proved first (in order), then assumed
 	Unfold    int       // unfolding depth for recursive functions
 	Axiom     bool      // trusted, not proved
 	Props     []string
@@ -43,6 +44,7 @@ type Lemma struct {
 }
 
 type LoopSpec struct {
+	Asserts    []*Clause // proved at the start of the loop body, then assumed (instantiation hints)
 	Invariants []*Clause
 	Decreases  *SExpr
 	Uses       []*SExpr
@@ -86,6 +88,8 @@ type FuncContract struct {
 	Src      string
 	NoSafety bool
 	RetLets  map[int]map[string]*SExpr
+	Dead     []string // cover obligations expected to be unreachable under the precondition (suffix match)
+	Free     []string // parameters exempt from the exact-mode domain assumption (may hold +-Inf)
 }
 
 type Contracts struct {
@@ -99,7 +103,7 @@ var directiveKW = map[string]bool{
 	"spec": true, "lemma": true, "axiom": true, "func": true, "requires": true, "ensures": true,
 	"loop": true, "call": true, "assigns": true, "pure": true, "trusted": true, "arith": true,
 	"decreases": true, "induction": true, "use": true, "props": true, "ret": true, "entry": true,
-	"unfold": true, "iter": true, "ghost": true, "opaque": true, "nosafety": true,
+	"unfold": true, "iter": true, "ghost": true, "opaque": true, "nosafety": true, "have": true, "free": true, "dead": true,
 }
 
 // collectAnnotations returns the //@ lines of a file, with positions.
@@ -302,6 +306,17 @@ func (cs *Contracts) parseFile(pkg string, lines []string, where string) {
 			} else {
 				panic(w + ": bare use only in lemma; use 'ret use', 'loop N use', 'entry use' in functions")
 			}
+		case "have":
+			if curL == nil {
+				panic(w + ": have only in lemmas")
+			}
+			curL.Haves = append(curL.Haves, parseClause(it.text, w))
+		case "dead":
+			curF.Dead = append(curF.Dead, strings.Fields(it.text)...)
+		case "free":
+			for _, a := range strings.FieldsFunc(it.text, func(r rune) bool { return r == ',' || r == ' ' }) {
+				curF.Free = append(curF.Free, a)
+			}
 		case "props":
 			ps := strings.FieldsFunc(it.text, func(r rune) bool { return r == ',' || r == ' ' })
 			if curF != nil {
@@ -378,6 +393,8 @@ func (cs *Contracts) parseFile(pkg string, lines []string, where string) {
 			switch f[1] {
 			case "invariant":
 				ls.Invariants = append(ls.Invariants, parseClause(f[2], w))
+			case "assert":
+				ls.Asserts = append(ls.Asserts, parseClause(f[2], w))
 			case "decreases":
 				ls.Decreases = parseExprText(f[2], w)
 			case "use":
